@@ -141,18 +141,27 @@ type Result struct {
 	Traces     []string       `json:"traces,omitempty"` // ndjson trace files recorded for TLC validation
 	Extra      map[string]any `json:"extra,omitempty"`
 	distinct   map[string]struct{}
+	perClass   map[string]int
 }
 
 func NewResult() *Result {
 	return &Result{Extra: map[string]any{}, distinct: map[string]struct{}{}, Mismatches: []Mismatch{}, Samples: []any{}}
 }
 
+// AddMismatch keeps at most 3 mismatches per class and 60 classes, so that frequent classes (known
+// findings, L2 divergences) cannot crowd out a new one.
 func (r *Result) AddMismatch(m Mismatch) {
 	r.mu.Lock()
 	defer r.mu.Unlock()
-	if len(r.Mismatches) < 50 {
-		r.Mismatches = append(r.Mismatches, m)
+	if r.perClass == nil {
+		r.perClass = map[string]int{}
 	}
+	if r.perClass[m.Class] >= 3 || (r.perClass[m.Class] == 0 && len(r.perClass) >= 60) {
+		r.perClass[m.Class]++
+		return
+	}
+	r.perClass[m.Class]++
+	r.Mismatches = append(r.Mismatches, m)
 }
 func (r *Result) NMismatch() int {
 	r.mu.Lock()
